@@ -45,6 +45,9 @@ Proof. unfold rst_init, all_steps, fsof. destruct (rrun true St (rq_plan q)) as 
 Lemma final_status_not_partial evs ok all : N.eqb (final_status evs ok all) st_partial_response = false.
 Proof. unfold final_status. destruct ok, (root_skipped evs), all; reflexivity. Qed.
 
+Lemma final_status_not_paused evs ok all : N.eqb (final_status evs ok all) st_paused = false.
+Proof. unfold final_status. destruct ok, (root_skipped evs), all; reflexivity. Qed.
+
 (* every load event of a run over the store carries the store's answer for its link *)
 Definition sans (c : cid) : ans :=
   match St c with
@@ -119,13 +122,24 @@ Inductive Tail (q : rreq) : list (cid * bool) -> list (option (cid * bool)) -> l
 | T_err_fin dn : Tail q dn [None] [fin_msg (rq_id q) (fsof q (forallb snd dn))]
 | T_err dn rest ms : rest <> [] -> Tail q dn rest ms -> Tail q dn (None :: rest) ms.
 
-Definition is_term (m : wmsg) : bool := negb (N.eqb (wm_status m) st_partial_response).
+(* a request that was paused by the incoming-request hook emits RequestPaused first *)
+Definition TailX (q : rreq) (started : bool) (dn : list (cid * bool)) (steps : list (option (cid * bool)))
+    (ms : list wmsg) : Prop :=
+  Tail q dn steps ms \/
+  (started = false /\ exists ms', ms = pause_msg (rq_id q) :: ms' /\ Tail q dn steps ms').
+Lemma tailx_true q dn steps ms : TailX q true dn steps ms -> Tail q dn steps ms.
+Proof. intros [H|[H _]]; [exact H | discriminate]. Qed.
 
-Lemma tail_shape q dn steps ms : Tail q dn steps ms ->
+Definition is_term := is_final.
+
+Definition Shape (q : rreq) (dn : list (cid * bool)) (steps : list (option (cid * bool))) (ms : list wmsg) : Prop :=
   (filter is_term ms = [] /\ exists rest, somes steps = concat (map wm_md ms) ++ rest) \/
   (exists pre, ms = pre ++ [fin_msg (rq_id q) (fsof q (forallb snd (dn ++ somes steps)))] /\
                filter is_term pre = [] /\ concat (map wm_md pre) = somes steps).
+
+Lemma tail_shape q dn steps ms : Tail q dn steps ms -> Shape q dn steps ms.
 Proof.
+  unfold Shape.
   induction 1 as [dn steps|dn c h rest send ms Hne Hs HT IH|dn c h send Hs|dn|dn rest ms Hne HT IH].
   - left. split; [reflexivity|]. exists (somes steps). reflexivity.
   - destruct IH as [[Hf [rest' Hr]]|[pre [Hm [Hf Hc]]]].
@@ -139,19 +153,27 @@ Proof.
   - destruct IH as [[Hf [rest' Hr]]|[pre [Hm [Hf Hc]]]]; [left | right]; simpl; eauto.
 Qed.
 
+Lemma tailx_shape q b dn steps ms : TailX q b dn steps ms -> Shape q dn steps ms.
+Proof.
+  intros [H|(_ & ms' & -> & H)]; [now apply tail_shape|]. apply tail_shape in H.
+  destruct H as [[Hf [rest' Hr]]|[pre [Hm [Hf Hc]]]].
+  - left. split; [exact Hf|]. exists rest'. exact Hr.
+  - right. exists (pause_msg (rq_id q) :: pre). split; [now rewrite Hm|]. split; [exact Hf | exact Hc].
+Qed.
+
 Lemma is_term_fin r st all : is_term (fin_msg r (final_status (fst st) (snd st) all)) = true.
-Proof. unfold is_term. simpl. now rewrite final_status_not_partial. Qed.
+Proof. unfold is_term, is_final. simpl. now rewrite final_status_not_partial, final_status_not_paused. Qed.
 
 Lemma filter_term_app a b : filter is_term (a ++ b) = filter is_term a ++ filter is_term b.
 Proof. apply filter_app. Qed.
 
 (* the per-request clauses of monitor_C03 follow from the shape *)
-Lemma tail_mon_req q tl : Tail q [] (all_steps q) (msgs_of (rq_id q) tl) -> mon_req St tl q = true.
+Lemma tail_mon_req q tl : TailX q false [] (all_steps q) (msgs_of (rq_id q) tl) -> mon_req St tl q = true.
 Proof.
-  intro HT. apply tail_shape in HT. unfold mon_req.
+  intro HT. apply tailx_shape in HT. unfold Shape in HT. unfold mon_req.
   rewrite all_steps_md in HT. simpl app in HT.
   destruct (plain_run St (rq_plan q)) as [evs ok] eqn:Epr. simpl fst in HT.
-  change (fun m : wmsg => negb (N.eqb (wm_status m) st_partial_response)) with is_term.
+  change is_final with is_term.
   destruct HT as [[Hf [rest Hr]]|[pre [Hm [Hf Hc]]]].
   - rewrite Hf, Hr. apply is_prefix_app.
   - rewrite Hm, filter_term_app, Hf. simpl app.
@@ -162,11 +184,14 @@ Proof.
     rewrite list_eqb_pair_refl, N.eqb_refl, rev_app_distr. simpl. now rewrite N.eqb_refl.
 Qed.
 
-Lemma tail_blocks q dn steps ms : Tail q dn steps ms ->
+Definition BlocksOK (q : rreq) (dn : list (cid * bool)) (ms : list wmsg) : Prop :=
   NoDup (concat (map wm_blocks ms)) /\
   (forall c, In c (concat (map wm_blocks ms)) -> ~ In c (ign q ++ present dn)) /\
   forallb (fun m => match wm_blocks m with [] => true | _ => forallb (fun i => skipv q <? i) (wm_idx m) end) ms = true.
+
+Lemma tail_blocks q dn steps ms : Tail q dn steps ms -> BlocksOK q dn ms.
 Proof.
+  unfold BlocksOK.
   induction 1 as [dn steps|dn c h rest send ms Hne Hs HT IH|dn c h send Hs|dn|dn rest ms Hne HT IH].
   - simpl. repeat split; [constructor | intros c []].
   - destruct IH as (Hn & Hd & Hk). simpl.
@@ -190,9 +215,14 @@ Proof.
   - exact IH.
 Qed.
 
-Lemma tail_mon24 q tl : Tail q [] (all_steps q) (msgs_of (rq_id q) tl) -> mon24_req tl q = true.
+Lemma tailx_blocks q b dn steps ms : TailX q b dn steps ms -> BlocksOK q dn ms.
 Proof.
-  intro HT. destruct (tail_blocks _ _ _ _ HT) as (Hn & _ & Hk). unfold mon24_req.
+  intros [H|(_ & ms' & -> & H)]; [now apply (tail_blocks q dn steps)|]. apply tail_blocks in H. exact H.
+Qed.
+
+Lemma tail_mon24 q tl : TailX q false [] (all_steps q) (msgs_of (rq_id q) tl) -> mon24_req tl q = true.
+Proof.
+  intro HT. destruct (tailx_blocks _ _ _ _ _ HT) as (Hn & _ & Hk). unfold mon24_req.
   fold (skipv q). rewrite Hk. simpl. now apply nodupb_of_NoDup.
 Qed.
 
@@ -355,14 +385,23 @@ Definition mon_act (a : sact) (sp : spec) (ms : list wmsg) : option spec :=
       | _, _ => None
       end
   | SStep r => mon_msgs r sp ms
+  | SStartPaused r =>
+      match ms, rq_find r reqs with
+      | [m], Some q => if wmsg_eqb m (pause_msg r) then spec_ops sp (ext_ops q) else None
+      | _, _ => None
+      end
+  | SUnpause r => match ms with [] => Some sp | _ => None end
   end.
 
 Lemma mon_tl_cons a ms tl sp :
   mon_tl reqs sp ((a, ms) :: tl) = match mon_act a sp ms with Some sp' => mon_tl reqs sp' tl | None => false end.
 Proof.
-  destruct a as [r|r]; simpl.
+  destruct a as [r|r|r|r]; simpl.
   - destruct ms; [|reflexivity]. destruct (rq_find r reqs); reflexivity.
   - reflexivity.
+  - destruct ms as [|m [|m2 ms]]; try reflexivity. destruct (rq_find r reqs); [|reflexivity].
+    destruct (wmsg_eqb m (pause_msg r)); reflexivity.
+  - destruct ms; reflexivity.
 Qed.
 
 Lemma mon_msg_rec r sp c h send i sp1 : spec_step sp (LRecord r c h) = Some (sp1, OSend send i) ->
@@ -378,10 +417,11 @@ Proof.
 Qed.
 
 (* starting a request *)
-Lemma step_start s sts sp x : GI s sts sp -> In x sts -> rs_started x = false ->
+Lemma step_start s sts sp x ms0 : GI s sts sp -> In x sts -> rs_started x = false ->
   let x' := {| rs_q := rs_q x; rs_started := true; rs_steps := rs_steps x; rs_fs := rs_fs x |} in
-  sim_step s sts (SStart (rid x)) = (lsteps s (ext_ops (rs_q x)), rst_put x' sts, []) /\
-  exists sp', mon_act (SStart (rid x)) sp [] = Some sp' /\ GI (lsteps s (ext_ops (rs_q x))) (rst_put x' sts) sp'.
+  sim_start s sts (rid x) ms0 = (lsteps s (ext_ops (rs_q x)), rst_put x' sts, ms0) /\
+  exists sp', mon_act (SStart (rid x)) sp [] = Some sp' /\ mon_act (SStartPaused (rid x)) sp [pause_msg (rid x)] = Some sp' /\
+    GI (lsteps s (ext_ops (rs_q x))) (rst_put x' sts) sp'.
 Proof.
   intros (HR & Hn & Hall) Hin Hns x'.
   pose proof (proj1 (Forall_forall _ _) Hall) as Hall'.
@@ -392,9 +432,10 @@ Proof.
     - destruct (rst_find_in _ _ _ E) as [A B]. f_equal. now apply (nodup_in_eq sts).
     - exfalso. exact (rst_find_none _ _ E x Hin eq_refl). }
   split.
-  - simpl. rewrite Efind, Hns. reflexivity.
-  - destruct (ext_ops_spec (rs_q x) sp Hf) as (sp' & Hsp). exists sp'. split.
+  - unfold sim_start. rewrite Efind, Hns. reflexivity.
+  - destruct (ext_ops_spec (rs_q x) sp Hf) as (sp' & Hsp). exists sp'. split; [|split].
     + simpl. now rewrite Hq.
+    + cbn [mon_act]. rewrite Hq. unfold wmsg_eqb, pause_msg. cbn. now rewrite N.eqb_refl.
     + split; [|split].
       * rewrite lsteps_final. apply (lfinal_R_exact _ _ _ _ HR). now rewrite <- spec_ops_final.
       * now rewrite map_rid_put.
@@ -551,7 +592,7 @@ Qed.
 
 (* ---------- schedules ---------- *)
 Definition starts (sched : list sact) : list req :=
-  flat_map (fun a => match a with SStart r => [r] | SStep _ => [] end) sched.
+  flat_map (fun a => match a with SStart r | SStartPaused r => [r] | SStep _ | SUnpause _ => [] end) sched.
 
 Definition SO (sts : list rst) (sched : list sact) : Prop :=
   NoDup (starts sched) /\
@@ -564,15 +605,15 @@ Lemma step_cases s sts sp a sched : GI s sts sp -> SO sts (a :: sched) ->
     forall x dns, In x sts -> all_steps (rs_q x) = dns ++ rs_steps x ->
       forall tlmsgs,
         (forall x1 dns1, In x1 sts' -> rs_q x1 = rs_q x -> all_steps (rs_q x1) = dns1 ++ rs_steps x1 ->
-                         Tail (rs_q x) (somes dns1) (rs_steps x1) tlmsgs) ->
-        Tail (rs_q x) (somes dns) (rs_steps x) (filter (fun m => N.eqb (wm_req m) (rid x)) ms ++ tlmsgs).
+                         TailX (rs_q x) (rs_started x1) (somes dns1) (rs_steps x1) tlmsgs) ->
+        TailX (rs_q x) (rs_started x) (somes dns) (rs_steps x) (filter (fun m => N.eqb (wm_req m) (rid x)) ms ++ tlmsgs).
 Proof.
   intros HG (Hnd & Hso).
   destruct HG as (HR & Hn & Hall). pose proof (conj HR (conj Hn Hall)) as HG.
-  destruct a as [r|r].
+  destruct a as [r|r|r|r].
   - (* start *)
     destruct (Hso r (or_introl eq_refl)) as (x0 & Hin0 & Hr0 & Hns0). subst r.
-    destruct (step_start s sts sp x0 HG Hin0 Hns0) as (Estep & sp' & Hmon & HG').
+    destruct (step_start s sts sp x0 [] HG Hin0 Hns0) as (Estep & sp' & Hmon & _ & HG').
     set (x0' := {| rs_q := rs_q x0; rs_started := true; rs_steps := rs_steps x0; rs_fs := rs_fs x0 |}) in *.
     exists (lsteps s (ext_ops (rs_q x0))), (rst_put x0' sts), [], sp'.
     split; [exact Estep|]. split; [exact Hmon|]. split; [exact HG'|]. split.
@@ -581,7 +622,7 @@ Proof.
       apply in_put_other; [exact Hy|]. intro E. apply Hnot. rewrite <- Ey in Hr. rewrite E in Hr. exact Hr.
     + intros x dns Hin Hd tlmsgs Htl. simpl.
       destruct (N.eq_dec (rid x) (rid x0)) as [E|E].
-      * assert (x = x0) by (now apply (nodup_in_eq sts)). subst x.
+      * assert (x = x0) by (now apply (nodup_in_eq sts)). subst x. left. apply tailx_true.
         apply (Htl x0' dns); [now apply (in_put_self x0) | reflexivity | exact Hd].
       * apply (Htl x dns); [now apply in_put_other | reflexivity | exact Hd].
   - (* step *)
@@ -620,9 +661,9 @@ Proof.
         rewrite Efil. rewrite Hsteps0 in Hd |- *.
         assert (dns = dns0) by (rewrite Hd0 in Hd; now apply app_inv_tail in Hd). subst dns.
         assert (Hnext : Tail (rs_q x0) (somes (dns0 ++ [st])) rest tlmsgs).
-        { apply (Htl x0' (dns0 ++ [st])); [now apply (in_put_self x0) | reflexivity|].
+        { apply tailx_true. apply (Htl x0' (dns0 ++ [st])); [now apply (in_put_self x0) | reflexivity|].
           simpl. rewrite Hd0, <- app_assoc. reflexivity. }
-        rewrite Ems. unfold rid in *.
+        rewrite Ems. unfold rid in *. left.
         destruct st as [[c h]|]; destruct rest as [|st2 rest2]; simpl app.
         -- assert (tlmsgs = []) by (inversion Hnext; reflexivity). subst tlmsgs.
            rewrite somes_app. simpl. apply T_rec_fin. intro Hs. now apply (Hsendable c h).
@@ -636,6 +677,24 @@ Proof.
         { clear -Hreq E. induction Hreq as [|m ms Hm _ IH]; simpl; [reflexivity|]. rewrite Hm.
           destruct (N.eqb_spec (rid x0) (rid x)); [congruence | exact IH]. }
         rewrite Efil. simpl. apply (Htl x dns); [now apply in_put_other | reflexivity | exact Hd].
+  - (* start of a request paused by the incoming-request hook *)
+    destruct (Hso r (or_introl eq_refl)) as (x0 & Hin0 & Hr0 & Hns0). subst r.
+    destruct (step_start s sts sp x0 [pause_msg (rid x0)] HG Hin0 Hns0) as (Estep & sp' & _ & Hmon & HG').
+    set (x0' := {| rs_q := rs_q x0; rs_started := true; rs_steps := rs_steps x0; rs_fs := rs_fs x0 |}) in *.
+    exists (lsteps s (ext_ops (rs_q x0))), (rst_put x0' sts), [pause_msg (rid x0)], sp'.
+    split; [exact Estep|]. split; [exact Hmon|]. split; [exact HG'|]. split.
+    + simpl in Hnd. inversion Hnd as [|? ? Hnot Hnd']; subst. split; [exact Hnd'|].
+      intros r Hr. destruct (Hso r (or_intror Hr)) as (y & Hy & Ey & Hys). exists y. split; [|auto].
+      apply in_put_other; [exact Hy|]. intro E. apply Hnot. rewrite <- Ey in Hr. rewrite E in Hr. exact Hr.
+    + intros x dns Hin Hd tlmsgs Htl. cbn [filter pause_msg wm_req].
+      destruct (N.eqb_spec (rid x0) (rid x)) as [E|E].
+      * assert (x = x0) by (now apply (nodup_in_eq sts)). subst x. cbn [app]. right. split; [exact Hns0|].
+        exists tlmsgs. split; [reflexivity|]. apply tailx_true.
+        apply (Htl x0' dns); [now apply (in_put_self x0) | reflexivity | exact Hd].
+      * cbn [app]. apply (Htl x dns); [apply in_put_other; [exact Hin | intro E2; apply E; symmetry; exact E2] | reflexivity | exact Hd].
+  - (* unpause: the task is queued, nothing reaches the tracker or the wire *)
+    exists s, sts, [], sp. split; [reflexivity|]. split; [reflexivity|]. split; [exact HG|]. split; [split; assumption|].
+    intros x dns Hin Hd tlmsgs Htl. simpl. apply (Htl x dns); auto.
 Qed.
 
 Lemma msgs_of_cons r a ms tl :
@@ -646,10 +705,10 @@ Proof. unfold msgs_of. simpl. now rewrite filter_app. Qed.
 Lemma sim_ok : forall sched s sts sp, GI s sts sp -> SO sts sched ->
   mon_tl reqs sp (sim s sts sched) = true /\
   forall x dns, In x sts -> all_steps (rs_q x) = dns ++ rs_steps x ->
-    Tail (rs_q x) (somes dns) (rs_steps x) (msgs_of (rid x) (sim s sts sched)).
+    TailX (rs_q x) (rs_started x) (somes dns) (rs_steps x) (msgs_of (rid x) (sim s sts sched)).
 Proof.
   induction sched as [|a sched IH]; intros s sts sp HG HS.
-  - split; [reflexivity|]. intros. apply T_stop.
+  - split; [reflexivity|]. intros. left. apply T_stop.
   - destruct (step_cases s sts sp a sched HG HS) as (s' & sts' & ms & sp' & Estep & Hmon & HG' & HS' & Htail).
     destruct (IH s' sts' sp' HG' HS') as [IH1 IH2].
     simpl sim. rewrite Estep. split.
@@ -688,7 +747,7 @@ Proof.
   { split; [exact Hns|]. intros r Hr. apply Hincl in Hr. apply in_map_iff in Hr as (q & <- & Hq).
     exists (rst_init true St q). split; [unfold sts; now apply in_map|]. rewrite rst_init_eq. auto. }
   destruct (sim_ok St reqs sched plt_new sts [] HG HS) as [H1 H2]. fold tl in H1, H2.
-  assert (HT : forall q, In q reqs -> Tail St q [] (all_steps St q) (msgs_of (rq_id q) tl)).
+  assert (HT : forall q, In q reqs -> TailX St q false [] (all_steps St q) (msgs_of (rq_id q) tl)).
   { intros q Hq. specialize (H2 (rst_init true St q) []).
     rewrite rst_init_eq in H2. simpl in H2. apply H2; [|reflexivity].
     rewrite <- rst_init_eq. unfold sts. now apply in_map. }
